@@ -243,7 +243,7 @@ def _chunk_e3(chunk):
 def run(ctx):
     x = e3_exe()
     bound = ctx.q(1, 2)
-    cap = ctx.q(4000, 150000)
+    cap = ctx.q(4000, 25000)
     nsh = ctx.q(8, 16)
     models = [("m3t2", asset_model(3, 2)), ("m2t0", asset_model(2, 0))]
     if ctx.thorough:
